@@ -21,7 +21,7 @@ func XMultiSameMethod() *spec.Spec {
 
 // Extended returns the extended families (everything beyond the documented core combinations).
 func Extended(thorough bool) []*spec.Spec {
-	out := []*spec.Spec{XMultiSameMethod(), XCrossFile(), XTwoServiceFiles(), XTimestampCards(), XTimestampCardsFmt(), XEmptyOrders(), XOneofSiblings(), XSharedMethodHeader(), XQuotedHeaderTexts(), XQuotedAnnotationValues(), XForeignResponse(), XSameNamedNestedEnums(), XOneofVariantShapes(), XInt64Cards(), XHeaderNameShapes(), XParamNameClashes(), XHeaderOverrideShapes(), XUnwrapWrapperShapes()}
+	out := []*spec.Spec{XMultiSameMethod(), XCrossFile(), XTwoServiceFiles(), XTimestampCards(), XTimestampCardsFmt(), XEmptyOrders(), XOneofSiblings(), XSharedMethodHeader(), XQuotedHeaderTexts(), XQuotedAnnotationValues(), XForeignResponse(), XSameNamedNestedEnums(), XOneofVariantShapes(), XInt64Cards(), XHeaderNameShapes(), XParamNameClashes(), XHeaderOverrideShapes(), XUnwrapWrapperShapes(), XProto2Basic()}
 	out = append(out, XAnnotationCards()...)
 	out = append(out, XIdentifierShapes()...)
 	out = append(out, CtxSpecs()...)
@@ -490,4 +490,29 @@ func XUnwrapWrapperShapes() *spec.Spec {
 			spec.Msg("nums", "NumsOnly").Map(), spec.Msg("num_pages", "NumsPage").Map()),
 	}, Services: []*spec.Service{EchoService("WrapperShapeService", "WrapperShapes")}}
 	return withCell(spec.One("x_unwrap_wrapper_shapes", f), "ext/unit=unwrap_wrapper_shapes", "extended", "valid", "codec")
+}
+
+// XProto2Basic: the syntax dimension - a proto2 file (every singular field has presence and is a pointer in Go; optional is a
+// label, not a synthetic oneof) with scalars of several kinds, an enum, nested and repeated messages, a map, a real oneof,
+// annotated fields (int64 NUMBER, bytes HEX, timestamp UNIX_SECONDS) and REST routes with a path variable and query parameters.
+func XProto2Basic() *spec.Spec {
+	f := &spec.File{Proto2: true,
+		Enums: []*spec.Enum{spec.E("Tone", "TONE_UNSPECIFIED", "TONE_WARM", "TONE_COOL")},
+		Messages: []*spec.Message{
+			spec.M("Leaf", spec.F("label", "string").Opt(), spec.F("n", "int32").Opt()),
+			spec.M("Plain2", spec.F("title", "string").Opt(), spec.F("count", "int32").Opt(), spec.F("total", "int64").Opt(), spec.F("done", "bool").Opt(), spec.F("ratio", "double").Opt(),
+				spec.En("tone", "Tone").Opt(), spec.Msg("leaf", "Leaf").Opt(), spec.Msg("leaves", "Leaf").Rep(), spec.F("tags", "string").Rep(), spec.F("attrs", "string").Map(),
+				spec.F("pick_s", "string").In("pick"), spec.F("pick_n", "int32").In("pick")).WithOneof(&spec.Oneof{Name: "pick"}),
+			spec.M("Big2", spec.F("big", "int64").Opt().I64(spec.EncNumber), spec.F("bigs", "int64").Rep().I64(spec.EncNumber), spec.F("name", "string").Opt()),
+			spec.M("Blob2", spec.F("blob", "bytes").Opt().BEnc(spec.BytesHex), spec.F("name", "string").Opt()),
+			spec.M("Stamp2", spec.Ts("at").Opt().TsF(spec.TsUnixSec), spec.F("name", "string").Opt()),
+			spec.M("Get2", spec.F("id", "string").Opt(), spec.F("limit", "int32").Opt().Q("limit"), spec.F("q", "string").Opt().Q("q")),
+			spec.M("Put2", spec.F("id", "string").Opt(), spec.F("note", "string").Opt()),
+			spec.M("Out", spec.F("ok", "bool").Opt()),
+		},
+		Services: []*spec.Service{
+			EchoService("Proto2EchoService", "Plain2", "Big2", "Blob2", "Stamp2"),
+			spec.Svc("Proto2RestService", "/p2", spec.RPC("GetItem", "Get2", "Out", "GET", "/items/{id}"), spec.RPC("PutItem", "Put2", "Out", "PUT", "/items/{id}")),
+		}}
+	return withCell(spec.One("x_proto2_basic", f), "ext/unit=proto2_basic", "extended", "valid", "codec")
 }
